@@ -1,7 +1,10 @@
 /-
   Proofs/TkWitness.lean — C13: outside the fragment `toTk` does NOT refine `canon`.
   One concrete circuit per excluding condition of `violation`; each is a finding on /repo
-  (the same circuits are replayed on the real code by harness/props/c13.py).
+  (the same circuits are replayed on the real code by harness/props/c13.py).  The witnesses of
+  the conditions removed by the fix commits F11, F26, F28 (Measure left of a bit, destructive
+  override Measure, bit swap while bit 0 is post-selected) are gone with them: those circuits are
+  inside the fragment now (examples in Props/C13.lean).
 -/
 import Proofs.Tk
 
@@ -28,45 +31,6 @@ theorem exists_of_isOk {α} {x : Except Err α} (h : isOk x = true) : ∃ a, x =
 
 def NotRefined (c : Circ) : Prop :=
   ∃ st, toTk c = .ok st ∧ ¬ ∃ sp ρq ρb dreg, canon c = .ok sp ∧ Refines sp st ρq ρb dreg
-
-/-! ### F11 — Measure to the left of an existing bit wire
-    `Ket(1, 0) >> Id(1) @ Measure() >> Measure() @ Id(bit)` -/
-
-def wF11 : Circ := ⟨[], [(.ket [1, 0], 0), (.measure 1 true false, 1), (.measure 1 true false, 0)]⟩
-
-theorem wF11_violation : wF11.firstViolation = some ("measure_left_of_bit", 3) := by decide
-
-theorem wF11_toTk : toTk wF11 = .ok ⟨2, 2, [], [1, 0],
-    [⟨"X", none, [0], []⟩, ⟨"Measure", none, [1], [0]⟩, ⟨"Measure", none, [0], [1]⟩],
-    [], [], ⟨2, 2, []⟩⟩ := by decide
-
-theorem wF11_canon : canon wF11 = .ok ⟨2, 2, [], [.reg 1, .reg 0],
-    [⟨"X", none, [0], []⟩, ⟨"Measure", none, [1], [0]⟩, ⟨"Measure", none, [0], [1]⟩],
-    [], [], []⟩ := by decide
-
-/-- The exported post-processing is the identity on registers (0, 1) but the diagram's outputs
-    are (bit 1, bit 0): no naming of the bits makes them agree. -/
-theorem wF11_not_refined : NotRefined wF11 := by
-  refine ⟨_, wF11_toTk, ?_⟩
-  rintro ⟨sp, ρq, ρb, dreg, hsp, R⟩
-  rw [wF11_canon] at hsp
-  cases hsp
-  have hc := R.cmds
-  simp only [List.map_cons, List.map_nil, Cmd.map, List.cons.injEq, Cmd.mk.injEq, and_true,
-    true_and] at hc
-  have hpp := R.pp
-  simp only [PP.run, List.foldl_nil, List.map_cons, List.map_nil, BV.map, Prod.mk.injEq, true_and] at hpp
-  have hs := R.readout.1
-  match dreg, hpp with
-  | [a, b], hpp =>
-    simp only [List.map_cons, List.map_nil, List.cons.injEq, BV.reg.injEq, and_true] at hpp
-    simp only [List.pairwise_cons, List.mem_cons, List.mem_nil_iff, or_false, forall_eq] at hs
-    omega
-
-theorem not_toTkRefines : ¬ ToTkRefines := by
-  intro h
-  obtain ⟨st, hst, hn⟩ := wF11_not_refined
-  exact hn (h wF11 st hst)
 
 /-! ### Bits(0) to the left of an existing (non-post-selected) bit register
     `Ket(1) >> Measure() >> Bits(0) @ Id(bit)` -/
@@ -111,6 +75,11 @@ theorem wBits_not_refined : NotRefined wBits := by
   | [a], hpp => simp [PP.run, PP.stepRun, swapAt] at hpp
   | a :: b :: c :: t, hpp => simp [PP.run, PP.stepRun, swapAt] at hpp
 
+theorem not_toTkRefines : ¬ ToTkRefines := by
+  intro h
+  obtain ⟨st, hst, hn⟩ := wBits_not_refined
+  exact hn (h wBits st hst)
+
 /-! ### Discard of a bit
     `Ket(1, 0) >> Measure(2) >> Discard(bit) @ Id(bit)` -/
 
@@ -140,82 +109,58 @@ theorem wDiscard_not_refined : NotRefined wDiscard := by
   simp only at hd
   omega
 
-/-! ### Measure(destructive=True, override_bits=True)
-    `Ket(1, 0) >> Id(1) @ Bits(0) @ Id(1) >> Measure(1, override_bits=True) @ Id(1)
-       >> Id(bit) @ X >> Id(bit) @ Measure()` -/
+/-! ### a classical box that changes the number of bit wires, then Bits: the export raises
+    `Bits(0) >> FAN >> Id(bit @ bit) @ Bits(0)`  (`bits` still has one entry for two bit wires) -/
 
-def wOverride : Circ := ⟨[], [(.ket [1, 0], 0), (.bits [0] false, 1), (.measure 1 true true, 0),
-  (.gate "X" 1, 1), (.measure 1 true false, 1)]⟩
+def wStale : Circ := ⟨[], [(.bits [0] false, 0), (.cgate "FAN" 1 2, 0), (.bits [0] false, 2)]⟩
 
-theorem wOverride_violation : wOverride.firstViolation = some ("override_destructive", 3) := by decide
-
-theorem wOverride_toTk : toTk wOverride = .ok ⟨2, 2, [1], [0, 1],
-    [⟨"X", none, [0], []⟩, ⟨"Measure", none, [0], [0]⟩, ⟨"X", none, [0], []⟩,
-             ⟨"Measure", none, [0], [1]⟩],
-    [], [], ⟨2, 2, []⟩⟩ := by decide
-
-theorem wOverride_canon : canon wOverride = .ok ⟨2, 2, [], [.reg 0, .reg 1],
-    [⟨"X", none, [0], []⟩, ⟨"Measure", none, [0], [0]⟩, ⟨"X", none, [1], []⟩,
-             ⟨"Measure", none, [1], [1]⟩],
-    [], [], []⟩ := by decide
-
-/-- The measured qubit stays in `qubits`: the X and the second Measure meant for the second
-    qubit wire act on register 0 again — two different wires on one register. -/
-theorem wOverride_not_refined : NotRefined wOverride := by
-  refine ⟨_, wOverride_toTk, ?_⟩
-  rintro ⟨sp, ρq, ρb, dreg, hsp, R⟩
-  rw [wOverride_canon] at hsp
-  cases hsp
-  have hc := R.cmds
-  simp only [List.map_cons, List.map_nil, Cmd.map, List.cons.injEq, Cmd.mk.injEq, and_true,
-    true_and] at hc
-  have := R.injq.2 0 1 (by decide) (by decide) (by omega)
-  omega
-
-/-! ### Swap(bit, bit) by renaming while bit 0 is post-selected
-    `Ket(0, 1, 0) >> Bra(0) @ Id(2) >> Measure() @ Id(1) >> Id(bit) @ Measure() >> Swap(bit, bit)` -/
-
-def wSwapPs : Circ := ⟨[], [(.ket [0, 1, 0], 0), (.bra [0], 0), (.measure 1 true false, 0),
-  (.measure 1 true false, 1), (.swap .b .b, 0)]⟩
-
-theorem wSwapPs_violation : wSwapPs.firstViolation = some ("bit_swap_moves_ps", 5) := by decide
-
-theorem wSwapPs_toTk : toTk wSwapPs = .ok ⟨3, 3, [], [1, 2],
-    [⟨"X", none, [1], []⟩, ⟨"Measure", none, [0], [0]⟩, ⟨"Measure", none, [1], [2]⟩,
-             ⟨"Measure", none, [2], [1]⟩],
-    [(2, 0)], [], ⟨2, 2, []⟩⟩ := by decide
-
-theorem wSwapPs_canon : canon wSwapPs = .ok ⟨3, 3, [], [.reg 2, .reg 1],
-    [⟨"X", none, [1], []⟩, ⟨"Measure", none, [0], [0]⟩, ⟨"Measure", none, [1], [1]⟩,
-             ⟨"Measure", none, [2], [2]⟩],
-    [(0, 0)], [], []⟩ := by decide
-
-/-- The post-selection moved from the bit of the `Bra` (register 0) to register 2. -/
-theorem wSwapPs_not_refined : NotRefined wSwapPs := by
-  refine ⟨_, wSwapPs_toTk, ?_⟩
-  rintro ⟨sp, ρq, ρb, dreg, hsp, R⟩
-  rw [wSwapPs_canon] at hsp
-  cases hsp
-  have hc := R.cmds
-  simp only [List.map_cons, List.map_nil, Cmd.map, List.cons.injEq, Cmd.mk.injEq, and_true,
-    true_and] at hc
-  have h0 : ρb 0 = 0 := by omega
-  have hp := R.ps 0 (by decide)
-  rw [h0] at hp
-  revert hp
-  decide
-
-/-! ### a classical box that changes the number of bit wires, then a Measure: the export crashes
-    `Ket(1) >> Measure() >> Bits(1)[::-1] >> Ket(1) >> Measure()` -/
-
-def wStale : Circ := ⟨[], [(.ket [1], 0), (.measure 1 true false, 0), (.bits [1] true, 0),
-  (.ket [1], 0), (.measure 1 true false, 0)]⟩
-
-theorem wStale_violation : wStale.firstViolation = some ("stale_bits", 6) := by decide
-
-theorem wStale_toTk : toTk wStale = .error .axiom := by decide
+theorem wStale_toTk : toTk wStale = .error .index := by decide
 
 theorem wStale_canon : ∃ sp, canon wStale = .ok sp := exists_of_isOk (by decide)
+
+/-! ### … or silently reads the wrong register
+    `Ket(1, 0) >> Measure(2) >> XOR >> Id(bit) @ Bits(0)`  (`bits` still has two entries for one wire) -/
+
+def wStaleOrder : Circ := ⟨[], [(.ket [1, 0], 0), (.measure 2 true false, 0), (.cgate "XOR" 2 1, 0),
+  (.bits [0] false, 1)]⟩
+
+theorem wStaleOrder_violation : wStaleOrder.firstViolation = some ("stale_bits", 4) := by decide
+
+theorem wStaleOrder_toTk : toTk wStaleOrder = .ok ⟨2, 3, [], [0, 1, 2],
+    [⟨"X", none, [0], []⟩, ⟨"Measure", none, [0], [0]⟩, ⟨"Measure", none, [1], [2]⟩],
+    [], [], ⟨3, 2, [(.gate "XOR" 2 1, 0)]⟩⟩ := by decide
+
+theorem wStaleOrder_canon : canon wStaleOrder = .ok ⟨2, 3, [], [.out 0 0, .reg 2],
+    [⟨"X", none, [0], []⟩, ⟨"Measure", none, [0], [0]⟩, ⟨"Measure", none, [1], [1]⟩],
+    [], [], [("XOR", [.reg 0, .reg 1])]⟩ := by decide
+
+/-- The second measured bit was renamed to register 2 and the blank bit took register 1: XOR now
+    reads the blank bit, and the measured bit comes out where the blank one should. -/
+theorem wStaleOrder_not_refined : NotRefined wStaleOrder := by
+  refine ⟨_, wStaleOrder_toTk, ?_⟩
+  rintro ⟨sp, ρq, ρb, dreg, hsp, R⟩
+  rw [wStaleOrder_canon] at hsp
+  cases hsp
+  have hc := R.cmds
+  simp only [List.map_cons, List.map_nil, Cmd.map, List.cons.injEq, Cmd.mk.injEq, and_true,
+    true_and] at hc
+  have hpp := R.pp
+  have hs := R.readout.1
+  have hm := R.readout.2
+  have hd := R.ppdom
+  match dreg, hpp, hd with
+  | [a, b, c], hpp, _ =>
+    simp only [PP.run, List.foldl_cons, List.foldl_nil, PP.stepRun, applyCG, outs, CG.map, List.map_cons,
+      List.map_nil, BV.map, Prod.mk.injEq] at hpp
+    simp at hpp
+    simp only [List.pairwise_cons, List.mem_cons, List.mem_nil_iff, or_false, forall_eq] at hs
+    have hcm := (hm c).mp (by simp)
+    simp only at hcm
+    omega
+  | [], _, hd => simp at hd
+  | [a], _, hd => simp at hd
+  | [a, b], _, hd => simp at hd
+  | a :: b :: c :: d :: t, _, hd => simp at hd
 
 theorem not_toTkTotal : ¬ ToTkTotal := by
   intro h
